@@ -471,7 +471,10 @@ CVH = [
     KSTD(Kb, "C05.condvar.wait_consumes_one_epoch", "c05_condvar_wait_consumes_one_epoch",
          "the woken waiter consumes its oldest epoch; that epoch disappears from EVERY other waiter's list wherever it sits; a waiter left with none is "
          "Waiting and blocked again (no invented wake-up), one with epochs left stays runnable; mutex released while waiting and re-held on return",
-         [CONDVAR + "::Condvar::wait"], "2 other waiters, epochs {0,1}, every combination of their lists", timeout_s=2400),
+         [CONDVAR + "::Condvar::wait"], "2 other waiters holding epochs [0,1] each, mine [1] (the consumed epoch is not at the front of their lists)", timeout_s=2400),
+    KSTD(Kb, "C05.condvar.wait_reblocks_exhausted_waiter", "c05_condvar_wait_reblocks_exhausted_waiter",
+         "same contract: a waiter whose only epoch I consumed goes back to Waiting and is blocked; one holding a different epoch is untouched",
+         [CONDVAR + "::Condvar::wait"], "2 other waiters holding [1] and [0], mine [1]", tier="thorough", timeout_s=2400),
     KSTD(Kb, "C05.condvar.notify_one", "c05_condvar_notify_one",
          "every current waiter gets the fresh epoch at the tail of its list and becomes runnable; next_epoch + 1; one choice point",
          [CONDVAR + "::Condvar::notify_one"], "2 waiters"),
@@ -526,3 +529,16 @@ PROPS["C15"]["assumptions"] = ["A-wrap: a clock entry is < u32::MAX before incre
 PROPS["C15"]["not_decided"] = ["the per-primitive edges (which clock is joined where in mutex/mpsc/condvar/barrier/once/atomics/spawn/join): only the semaphore "
                                "batches and the lemmas are covered; seeded mutant C15-mpsc-recv-clock (order of two statements in recv_internal) is NOT caught",
                                "replay restricted to a target clock"]
+
+# C07: StorageMap (lane V)
+PROPS["C07"]["verus_units"] = ["storage"]
+PROPS["C07"]["scope"] = ("StorageMap::{new,init,pop} proved unbounded on the extracted code: destruction order == initialisation order, each slot "
+                         "handed out exactly once, popped slots stay as tombstones (V); join waiter registration (K)")
+PROPS["C07"]["assumptions"] += ["A-key: StorageKey's derived Hash/Eq obey the HashMap key model (the verified text uses a u64 key)",
+                                "A-std: vstd's specifications of HashMap / VecDeque"]
+PROPS["C07"]["not_decided"] = ["thread_fn exit sequence and LocalKey::try_with (HashMap under CBMC: no result in 25 min)",
+                               "closure runs exactly once, scope(), names and ids reported inside a thread (coroutines)"]
+PROPS["C14"]["verus_units"] = ["storage"]
+PROPS["C14"]["not_decided"] = ["ExecutionState::cleanup() (order of draining tasks, storage destructors and clearing labels/tags): needs coroutines; "
+                               "seeded mutant C14-labels-cleared-too-early is NOT caught", "recycling of coroutine stacks"]
+PROPS["C14"]["scope"] = "a new ExecutionState is fresh and CurrentSchedule::init replaces the recorded schedule (K); global storage is drained in insertion order, each slot once (V, StorageMap)"
